@@ -153,6 +153,268 @@ def outside_variant(v):
     ] + ([{"path": "etc", "kind": "dir"}, {"path": "etc/passwd", "data": "root:x:0:0\n"}] if v == "b" else [])
 
 
+# ----------------------------------------------------------------------------
+# content-driven escapes: data stored INSIDE the root that names places outside it and is interpreted by a handler
+# (link members of archives, link lines of gophermaps inside and outside archives, UMN link files).  No request
+# of this leg contains a climbing substring and the content tree holds no file-system symlink.
+# ----------------------------------------------------------------------------
+OUTSIDE_NAMES = ["secret.txt", "secretdir", "secretdir/x.txt", "secret.txt.abstract", "script.sh", "mail.mbox", "md", "md/new/1.msg",
+                 "inner.zip", "gophermap", "secret.html", "index.html", "secret", "root2/secret.txt", "rootdir1/c.txt",
+                 "root-private/secret.txt", "etc/passwd", "deep.zip", "secretdir/nested.zip"]
+# the same places spelt through the names of the directories above the root (driver: <tmp>/outside/root)
+REENTRY_NAMES = ["outside/secret.txt", "outside/secretdir", "outside/root/a.txt", "root/a.txt", "outside/root2/secret.txt"]
+ZIP_T = (2023, 11, 14, 22, 13, 20)
+
+
+def _zip_build(members):
+    """members: (name, kind, payload) with kind file | exe | dir | link (payload of a link = its target).  Link members are
+    real ones: Unix mode S_IFLNK|0777 in the upper half of external_attr, the target as data (what zip -y stores)."""
+    import io
+    import stat
+    import zipfile
+    b = io.BytesIO()
+    with zipfile.ZipFile(b, "w") as z:
+        for name, kind, payload in members:
+            zi = zipfile.ZipInfo(name, date_time=ZIP_T)
+            zi.create_system = 3
+            if kind == "link":
+                zi.external_attr = (stat.S_IFLNK | 0o777) << 16
+            elif kind == "dir":
+                zi.external_attr = ((stat.S_IFDIR | 0o755) << 16) | 0x10
+            elif kind == "exe":
+                zi.external_attr = (stat.S_IFREG | 0o755) << 16
+            else:
+                zi.external_attr = (stat.S_IFREG | 0o644) << 16
+            z.writestr(zi, payload)
+    return b.getvalue().decode("latin-1")
+
+
+def link_archives(rng, depth, full):
+    """Archives that sit `depth` directories below the root.  Link members at 0..2 directories inside them whose
+    relative targets climb 1..n levels (n reaches past the root whatever the member's and the archive's depth) towards
+    names that exist outside the root, inside the root and nowhere; absolute targets; odd spellings of the climb;
+    directory links; links through other links.  Several small archives rather than one big one (the server indexes the
+    whole archive for every request).  Returns [(tag, zip data, member paths to request, directories to list)]."""
+    out = []
+
+    class Arch:
+        def __init__(self, tag):
+            self.tag = tag
+            self.members = [("README", "file", "plain member\n"), ("docs/", "dir", ""), ("docs/guide.txt", "file", "guide\n"),
+                            ("docs/api/", "dir", ""), ("docs/api/index.txt", "file", "api\n"),
+                            ("run.sh", "exe", "#!/bin/sh\necho member-script\n")]
+            self.want, self.dirs, self.n = ["README", "run.sh"], ["", "docs", "docs/api"], 0
+
+        def link(self, prefix, target, below=()):
+            self.n += 1
+            name = "%sL%d" % (prefix, self.n)
+            self.members.append((name, "link", target))
+            self.want.append(name)
+            self.want.extend(name + "/" + b for b in below)
+            return name
+
+        def done(self):
+            rng.shuffle(self.members)
+            out.append((self.tag, _zip_build(self.members), self.want, self.dirs))
+
+    for m, prefix in enumerate(["", "docs/", "docs/api/"]):
+        a = Arch("m%d" % m)
+        for k in range(1, m + depth + 4):
+            up = "../" * k
+            names = ["secret.txt"] + rng.sample(OUTSIDE_NAMES[1:], 2 if full else 1) + [rng.choice(REENTRY_NAMES)]
+            if k <= m + depth + 1:
+                names += [rng.choice(["a.txt", "dir1/c.txt", "dir1", "README", "docs/guide.txt", "nowhere.txt"])]
+            for nm in names:
+                a.link(prefix, up + nm)
+            # a link to a directory `k` levels up: the directory itself (listing) and things reached through it
+            a.link(prefix, up.rstrip("/") if rng.random() < 0.5 else up,
+                   below=["secret.txt", "secretdir"] + ([ "secretdir/x.txt", rng.choice(OUTSIDE_NAMES)] if full else []) + [rng.choice(REENTRY_NAMES)])
+        a.done()
+    a = Arch("odd")
+    # odd spellings of a climb, absolute targets (relative to the top of the archive, never to the real '/')
+    for t in ["/secret.txt", "/etc/passwd", "/etc", "//etc/passwd", "/../secret.txt", "/../../../secret.txt", "/" + "../" * (depth + 3) + "etc/passwd",
+              "./../../../secret.txt", "..//..//..//secret.txt", ".././.././../secret.txt", "docs/../../../../secret.txt",
+              "docs/api/../../../../../secretdir", "..\\..\\..\\secret.txt", "%2e%2e/%2e%2e/%2e%2e/secret.txt", "../../../secret.txt/",
+              "../" * 12 + "etc/passwd", "../" * 12 + "etc", "~/../secret.txt", "../../../secret.txt\n", " ../../../secret.txt"]:
+        a.link("", t, below=["x.txt", "passwd"] if t.rstrip("/").endswith(("etc", "secretdir")) else ())
+    # links through links
+    d_out = a.link("", "../" * (depth + 2), below=["secret.txt"])
+    a.link("", d_out + "/secret.txt")
+    a.link("docs/", "../" + d_out + "/secretdir", below=["x.txt"])
+    hop = a.link("", "../" * (depth + 2) + "secret.txt")
+    a.link("", hop)
+    a.link("docs/api/", "../../" + hop)
+    a.link("", "docs/../" + hop)
+    a.done()
+    return out
+
+
+def map_archive():
+    """Gophermaps stored as members of an archive, with link lines that leave the archive and the root."""
+    return _zip_build([("README", "file", "plain member\n"), ("docs/", "dir", ""), ("docs/guide.txt", "file", "guide\n"),
+                       ("gophermap", "file", "iarchive map\n0up1\t../a.txt\n0up2\t../../secret.txt\n0up3\t../../../secret.txt\n"
+                                             "0up4\t../../../../secret.txt\n1upd\t../../../secretdir\n0abs\t/../secret.txt\n0in\tREADME\n"),
+                       ("docs/gophermap", "file", "0out\t../../../../secret.txt\n0out5\t../../../../../secret.txt\n0g\tguide.txt\n")])
+
+
+def slip_archive():
+    """Ordinary (non-link) members whose NAMES climb or are absolute."""
+    return _zip_build([("ok.txt", "file", "ok\n"), ("../../secret.txt", "file", "slip\n"), ("/etc/passwd", "file", "slip\n"),
+                       ("d/../../../secretdir/x.txt", "file", "slip\n"), ("../", "dir", ""), ("..\\..\\secret.txt", "file", "slip\n")])
+
+
+def content_tree(rng, full):
+    t = 1_700_000_000
+    tree = [{"path": "a.txt", "data": "alpha\n"}, {"path": "dir1", "kind": "dir"}, {"path": "dir1/c.txt", "data": "charlie\n"}]
+    archives = []
+    for depth, stem in ((0, "top"), (1, "pub/bundle"), (3, "pub/rel/v1/src")):
+        for tag, data, want, dirs in link_archives(rng, depth, full):
+            path = "%s-%s.zip" % (stem, tag)
+            tree.append({"path": path, "data": data})
+            archives.append((path, "zip-link", want, dirs))
+    tree.append({"path": "pub/slip.zip", "data": slip_archive()})
+    archives.append(("pub/slip.zip", "zip-name", ["ok.txt", "etc/passwd", "d"], ["", "etc"]))
+    for path in ("maps.zip", "pub/maps.zip", "pub/rel/v1/maps.zip"):
+        tree.append({"path": path, "data": map_archive()})
+        archives.append((path, "zip-gophermap-link", ["README", "gophermap", "docs/gophermap"], ["", "docs"]))
+    # link lines of gophermaps and UMN link files, 1..4 levels up from directories 1 and 2 below the root
+    gm = ["imap with links that leave the root"]
+    for k in range(1, 5):
+        up = "../" * k
+        for nm in ["secret.txt", "secretdir", rng.choice(OUTSIDE_NAMES), rng.choice(REENTRY_NAMES)]:
+            gm.append("%sup%d %s\t%s" % ("1" if nm in ("secretdir", "md") else "0", k, nm, up + nm))
+    gm += ["0abs\t/../secret.txt", "0abs2\t/../../outside/secret.txt", "1absd\t/../secretdir", "0enc\t%2e%2e/%2e%2e/secret.txt",
+           "0../../secret.txt\t", "0bs\t..\\..\\secret.txt", "0here\tn.txt", "0dotted\t./../../secret.txt", "0dbl\t..//..//secret.txt"]
+    links = []
+    for k in range(1, 5):
+        up = "../" * k
+        for pre in ("", "./", "~/", "/"):
+            nm = rng.choice(["secret.txt", "secretdir", "secretdir/x.txt"])
+            links.append("Name=up%d %s%s\nPath=%s%s%s\nType=%s\n" % (k, pre, nm, pre, up, nm, "1" if nm == "secretdir" else "0"))
+    links.append("Name=merge\nPath=./n.txt\nAbstract=merged\n")
+    for d in ("maps", "maps/deeper"):
+        tree += [{"path": d, "kind": "dir"}, {"path": d + "/gophermap", "data": "\n".join(gm) + "\n"},
+                 {"path": d + "/n.txt", "data": "note\n"}]
+    for d in ("umn", "umn/deeper"):
+        tree += [{"path": d, "kind": "dir"}, {"path": d + "/.Links", "data": "#\n".join(links)}, {"path": d + "/n.txt", "data": "note\n"},
+                 {"path": d + "/.cap", "kind": "dir"}, {"path": d + "/.cap/n.txt", "data": "Name=capped\nPath=../../secret.txt\n"},
+                 {"path": d + "/.names", "data": "Path=./n.txt\nName=named\n#\nPath=../../../secret.txt\nName=out\n"}]
+    tree.append({"path": "loose.gophermap", "data": "\n".join(gm) + "\n"})
+    tree.append({"path": "maps/deeper/loose.gophermap", "data": "\n".join(gm) + "\n"})
+    for e in tree:
+        e["mtime"] = t
+    menus = ["maps", "maps/deeper", "umn", "umn/deeper", "loose.gophermap", "maps/deeper/loose.gophermap", "", "pub", "pub/rel/v1"]
+    return tree, archives, menus
+
+
+def content_leg(chk, tier):
+    """The audit-hook and non-interference oracle of the end-to-end search, applied to benign requests for content that
+    names places outside the root.  Returns True when a concrete failing input was reported."""
+    rng = chk.rng
+    full = tier == "thorough"
+    tree, archives, menus = content_tree(rng, full)
+    requests = []    # (proto, selector, kind, bytes, tls)
+    for path, kind, want, dirs in archives:
+        for d in dirs:                                   # listings, with attributes where the protocol has any
+            s = "/" + path + ("/" + d if d else "")
+            for proto in (gen.PROTOCOLS if full or kind != "zip-link" or not d else rng.sample(gen.PROTOCOLS, 3)):
+                data, tls = gen.request_bytes(proto, s, gplus="$")
+                requests.append((proto, s, kind, data, tls))
+        for m in want:                                   # members: every protocol (thorough) / two of them, at random (quick)
+            s = "/" + path + "/" + m
+            for proto in (gen.PROTOCOLS if full or kind != "zip-link" else rng.sample(gen.PROTOCOLS, 2)):
+                data, tls = gen.request_bytes(proto, s, gplus=rng.choice(["+", "!", "$"]))
+                requests.append((proto, s, kind, data, tls))
+    for m in menus:
+        kind = "umn-link" if m.startswith("umn") else "gophermap-link" if "map" in m else "menu"
+        for proto in gen.PROTOCOLS:
+            for gp in ("$", "+"):
+                if gp == "+" and not proto.startswith(("gopherplus", "sgopherplus")):
+                    continue
+                data, tls = gen.request_bytes(proto, "/" + m, gplus=gp)
+                requests.append((proto, "/" + m, kind, data, tls))
+    worlds, wreqs = [], []
+    for cfgname, cfg in (("full", FULL_CONFIG), ("zipfirst", ZIPFIRST_CONFIG), ("default", None)):
+        # the shipped default list has no ZIP handler: only the requests for menus made from gophermaps and link files
+        reqs = requests if cfg else [q for q in requests if not q[2].startswith("zip-")]
+        reqs_json = [{"data": gen.lat(d), "tls": t, "trace": True} for (_, _, _, d, t) in reqs]
+        for variant, cwd, spelling in (("a", "parent", None), ("b", "parent", "relative"), ("none", "root", "dotdot")):
+            worlds.append({"op": "world", "tree": tree, "outside": outside_variant(variant), "config": cfg, "cwd": cwd,
+                           "root_spelling": spelling, "requests": reqs_json, "tmpdir": True, "_cfg": cfgname, "_variant": variant})
+            wreqs.append(reqs)
+    wres = impl_run_parallel(worlds, chunks=len(worlds))
+    for r in wres:
+        if not r["ok"]:
+            raise RuntimeError(r["err"] + "\n" + r.get("tb", ""))
+    found = False
+    escapes = diffs = failed = 0
+    seen = set()
+
+    def world_of(w):
+        return {k: w.get(k) for k in ("tree", "outside", "config", "cwd", "root_spelling")}
+
+    for w, r, reqs in zip(worlds, wres, wreqs):
+        root = r["res"]["root"]
+        cwdp = {"root": root, "parent": os.path.dirname(root)}[w["cwd"]]
+        for q, out in zip(reqs, r["res"]["results"]):
+            proto, s, kind, data, tls = q
+            chk.count(("content", w["_cfg"], proto, s), nontrivial=True)
+            if out["exc"]:
+                failed += 1
+                found = True
+                if ("exc", kind) not in seen:
+                    seen.add(("exc", kind))
+                    chk.violation({"what": "the request crashed or did not finish: " + out["exc"], "protocol": proto, "selector": s,
+                                   "request_latin1": gen.lat(data), "tls": tls, "handlers": w["_cfg"], "log": out["log"][-3:],
+                                   "world": world_of(w)}, tag=f"content-request-failed:{kind}")
+            for cls, path in out["trace"] or []:
+                if path.startswith("<fd"):
+                    continue
+                # these requests are spotless: unlike a climbing request (whose early stat is never consulted) they
+                # give the server no reason to so much as stat a path outside the root
+                npath = os.path.normpath(os.path.join(cwdp, path))
+                inside = npath == root or npath.startswith(root + "/")
+                infra = (npath.endswith((".py", ".pyc", "/mime.types")) or "__pycache__" in npath
+                         or npath.startswith(("/dev/", "/proc/", "/root/.pyenv/", "/usr/lib/", "/usr/local/lib/", "/venv/")))
+                if not inside and not infra:
+                    escapes += 1
+                    found = True
+                    if (kind, cls) in seen:
+                        continue
+                    seen.add((kind, cls))
+                    chk.violation({"what": f"{cls} of a path outside the document root, named by content inside the root", "path": path,
+                                   "normalised": npath, "root": root, "protocol": proto, "selector": s, "request_latin1": gen.lat(data),
+                                   "tls": tls, "handlers": w["_cfg"], "world": world_of(w)}, tag=f"content-escape:{kind}:{cls}")
+    for cfgname in ("full", "zipfirst", "default"):
+        group = [(w, r, reqs) for w, r, reqs in zip(worlds, wres, wreqs) if w["_cfg"] == cfgname]
+        ref_w, ref_r, _ = group[0]
+        for w, r, reqs in group[1:]:
+            for qi, q in enumerate(reqs):
+                a = gen.mask_times(ref_r["res"]["results"][qi]["out"].encode("latin-1"))
+                b = gen.mask_times(r["res"]["results"][qi]["out"].encode("latin-1"))
+                if a != b:
+                    diffs += 1
+                    found = True
+                    if ("diff", q[2]) in seen:
+                        continue
+                    seen.add(("diff", q[2]))
+                    chk.violation({"what": "response to a benign request depends on the world outside the root (content inside the root "
+                                           "names a place outside it)", "protocol": q[0], "selector": q[1], "request_latin1": gen.lat(q[3]),
+                                   "tls": q[4], "handlers": cfgname, "outside_a": ref_w["_variant"], "outside_b": w["_variant"],
+                                   "response_a": a.decode("latin-1")[:600], "response_b": b.decode("latin-1")[:600], "tree": tree},
+                                  tag=f"content-interference:{q[2]}")
+    kinds = {}
+    for q in requests:
+        kinds[q[2]] = kinds.get(q[2], 0) + 1
+    answered = sum(1 for q, out in zip(requests, wres[0]["res"]["results"]) if not gen.notfound_class(q[0], out["out"].encode("latin-1")))
+    chk.coverage["content_oracle"] = {
+        "worlds": len(worlds), "requests_per_world": len(requests), "requests_by_kind": kinds, "answered_other_than_notfound": answered,
+        "archives": len(archives), "link_members_requested": sum(len(wn) for _, k, wn, _ in archives if k == "zip-link"),
+        "escaping_events": escapes, "response_differences": diffs, "failed_requests": failed,
+        "seconds_per_world": [round(sum(o["secs"] for o in r["res"]["results"]), 1) for r in wres]}
+    return found
+
+
 def component_cases(chk, tier):
     maxlen = 5 if tier == "thorough" else 4
     strings = [""]
@@ -594,6 +856,9 @@ def run(tier):
                                    "handlers": cfgname, "outside_a": ref_w["_variant"], "outside_b": w["_variant"],
                                    "response_a": a.decode("latin-1")[:400], "response_b": b.decode("latin-1")[:400],
                                    "tree": tree}, tag=f"interference:{q[0]}")
+    # ---------------- oracle search (content that names places outside the root) ----------------
+    if content_leg(chk, tier):
+        found_concrete = True
     chk.sample({"kind": "end-to-end", "protocol": requests[3][0], "selector": requests[3][1],
                 "request_latin1": gen.lat(requests[3][4]), "response_latin1": wres[0]["res"]["results"][3]["out"][:120]})
     cov["oracle"] = {"worlds": len(worlds), "requests_per_world": len(requests), "planted_paths_per_config": planted,
@@ -602,7 +867,11 @@ def run(tier):
     cov["rule"] = ("component: every string over {. / \\ NUL % a ? |} up to the stated length plus seeded random longer ones, "
                    "real isrequestsecure/slashnormalize/getfspath vs model in Coq; end to end: hostile selectors (climber grammar x "
                    "percent layers x 9 protocol syntaxes x {default, full} handler lists x 3 outside-worlds/cwd/root spellings) under "
-                   "audit hooks; non-trivial = selector contains a climbing substring or passes the filter")
+                   "audit hooks; non-trivial = selector contains a climbing substring or passes the filter; content leg: benign requests "
+                   "(every protocol) for the members and listings of archives with real symbolic-link members (relative targets climbing "
+                   "1..n levels from 0..2 directories inside archives 0, 1 and 3 directories below the root, absolute targets, odd "
+                   "spellings, directory links, links through links), members with climbing names, gophermaps inside and outside "
+                   "archives and UMN link files whose links leave the root; same audit-hook and three-outside-worlds oracle")
     if k_broken:
         chk.correspondence_broken("K01 (selector filter / path model)", k_detail, found_concrete)
     chk.finish_proofs(found_concrete)
